@@ -266,7 +266,9 @@ def run(ctx):
         list(ex.map(work, units))
 
     pid = ctx.pid
-    for name, l, g, sig, what in bad[:30]:
+    for name, l, g, sig, what in bad:      # known findings do not use up the report budget of fresh violations
+        if len(ctx.violations) >= 30:
+            break
         ctx.violation(sig, f"{name}: {what}: {trunc(l, 150)} -> {g}", {"unit": name, "op": l, "outputs": g})
     if not ctx.violations:
         if cres.get("Prim"):
